@@ -258,9 +258,15 @@ def float_ratio(chk: Check, cases, results):
             Af, Ae = scaled(float), scaled(lambda v: F(v))
             if Ae.mean_[y] == 0 or Ae.mean_[x] == 0:
                 continue
-            for what, call in (("ratio_var(x, y)", lambda a: a.ratio_var(x, y)),
-                               ("ratio_cov(x, y, y, x)", lambda a: a.ratio_cov(x, y, y, x)),
-                               ("ratio_cov(x, None, x, y)", lambda a: a.ratio_cov(x, None, x, y))):
+            def size_of(ln, ld, rn, rd):
+                """sum of the magnitudes of the four delta-method terms (exact): rounding errors are relative to it"""
+                ml, mr = Ae.mean(ld), Ae.mean(rd)
+                L, R = Ae.mean(ln) / ml, Ae.mean(rn) / mr
+                ts = (Ae.cov(ln, rn), Ae.cov(ln, rd) * R, Ae.cov(ld, rn) * L, Ae.cov(ld, rd) * L * R)
+                return float(sum(abs(F(t)) for t in ts) / abs(F(ml) * F(mr)))
+            for what, call, roles in (("ratio_var(x, y)", lambda a: a.ratio_var(x, y), (x, y, x, y)),
+                                      ("ratio_cov(x, y, y, x)", lambda a: a.ratio_cov(x, y, y, x), (x, y, y, x)),
+                                      ("ratio_cov(x, None, x, y)", lambda a: a.ratio_cov(x, None, x, y), (x, None, x, y))):
                 chk.case(("float-ratio", i, scale, what), nontrivial=False)
                 s0, exact = real_call(lambda: call(Ae))
                 s1, plain = real_call(lambda: call(Af))
@@ -270,10 +276,7 @@ def float_ratio(chk: Check, cases, results):
                     chk.fail("ratio_var / ratio_cov raised on floats with non-zero means",
                              dict(input=inp, exact=str(exact)[:100], plain=str(plain)[:100], zero_div_safe=str(safe)[:100]))
                     continue
-                mx, my = abs(float(Ae.mean_[x])), abs(float(Ae.mean_[y]))
-                size = (abs(float(Ae.var_[x])) / my ** 2 + 2 * abs(float(Ae.cov_[tuple(sorted((x, y)))])) * mx / my ** 3
-                        + abs(float(Ae.var_[y])) * mx ** 2 / my ** 4) * max(1.0, my / mx * my / mx, mx / my)
-                tol = 1e-9 * size + 1e-300
+                tol = 1e-9 * size_of(*roles) + 1e-300
                 for lab, got in (("plain", plain), ("with_zero_div", safe)):
                     g = float(got)
                     if not (abs(g - float(exact)) <= tol):
